@@ -88,7 +88,7 @@ class Node:
         self.height = 0 if parent is None else parent.height + 1
         self.ser = enc.enc_block(block)
         self.bid = enc.blockid(block)
-        self.utxo = refmodel.apply_block({} if parent is None else parent.utxo, block) if check_apply else None
+        self.utxo = refmodel.apply_block({} if parent is None else parent.utxo, block) if check_apply else {}
         self.path = path
         self._anc = None
         self.meta = {}
@@ -126,7 +126,8 @@ def genesis_node():
 
 def assemble(parent, txs, miner, timestamp, *, cb_outs=None, cb_height=None, cb_data=b'', cb_tx=None,
              height=None, target=None, prev=None, merkle=None, pow_ok=True, evid=None, evid_txs=None,
-             evid_parent=None, evid_height=None, all_txs=None, nonce0=0, max_tries=200000, fees=None):
+             evid_parent=None, evid_height=None, all_txs=None, nonce0=0, max_tries=200000, fees=None,
+             no_evidence=False):
     """Build a Block on `parent` (Node, or None for a root).  Defaults give a fully valid block; each keyword
     overrides one ingredient.  `evid(sh, cs, bh) -> (sh, cs, bh)` post-processes the evidence;
     `all_txs` replaces the complete transaction list (reward included)."""
@@ -154,12 +155,15 @@ def assemble(parent, txs, miner, timestamp, *, cb_outs=None, cb_height=None, cb_
     eh = h if evid_height is None else evid_height
     for nonce in range(nonce0, nonce0 + max_tries):
         s = BlockSummary(h, pv, mr, timestamp, target, nonce & 0xffffffff)
-        ev = refmodel.evidence_for(s, eh, etx, (lambda hh: ep.anc(hh).ser) if ep is not None else None)
+        if no_evidence:      # unvalidated filler ancestors: only sampled from, never re-validated
+            ev = (b'\x11' * 32, b'\x22' * 32, b'\x33' * 32)
+        else:
+            ev = refmodel.evidence_for(s, eh, etx, (lambda hh: ep.anc(hh).ser) if ep is not None else None)
         if evid is not None:
             ev = evid(*ev)
         hdr = BlockHeader(s, PowEvidence(*ev))
         ok = enc.sha256d(enc.enc_header(hdr)) < target
-        if ok == pow_ok:
+        if pow_ok is None or ok == pow_ok:
             return Block(hdr, txl)
     raise RuntimeError("no nonce found")
 
